@@ -220,7 +220,8 @@ func (w *world) call(sl *slot, where string, f func()) {
 
 var codecs = gen.Codecs{Video: "avc", Audio: "aac", AscObj: 2, AscFreq: 4, AscChan: 2}
 
-// mediaItem: vsh, ash, key frame, then audio / inter frames with a key frame every 6th message and a changed video
+// mediaItem: vsh, ash, key frame, then audio / inter frames with a key frame every 4th message (HLS
+// fragments are 100 ms: every second key frame closes one) and a changed video
 // sequence header every 9th; 40 ms apart.
 func mediaItem(i int, seed uint32) gen.Item {
 	ts := uint32(i) * 40
@@ -232,7 +233,7 @@ func mediaItem(i int, seed uint32) gen.Item {
 	case i%9 == 8:
 		// the video sequence header changes in mid-stream (new parameter sets: the rtsp remuxer re-issues its sdp)
 		return gen.Item{Kind: "vsh", Ts: ts, Variant: 1 + (i/9)%2}
-	case i%6 == 2:
+	case i%4 == 2:
 		return gen.Item{Kind: "video", Ts: ts, Key: true, Nals: []gen.NalSpec{{Hdr: []byte{0x65}, Len: 60, Seed: seed + uint32(i), Serial: seed + uint32(i)}}}
 	case i%2 == 1:
 		return gen.Item{Kind: "audio", Ts: ts - 15, ALen: 24, ASeed: seed + uint32(i)}
